@@ -490,20 +490,51 @@ func c14Strength(c *Ctx) {
 		mod, exp := p.PkgFunc("internal/signature", "RSAValidModulusSizeInBits"), p.PkgFunc("internal/signature", "RSAValidPublicExponent")
 		good := mod != nil && exp != nil
 		if good {
-			for _, ret := range guard.SuccessReturns(f) {
-				okM, okE := false, false
-				for _, fct := range guard.BlockFacts(ret.Block()) {
-					if ec, isNil, isE := guard.ErrNilFact(fct); isE && isNil && ec.Call.StaticCallee() == mod {
-						okM = true
+			// folded: with the verdicts of the two checks bound to nil / error in all four
+			// combinations, validRSAPublicKey succeeds exactly when both are nil
+			var mcalls, ecalls []*ssa.Call
+			allInstrs(f, func(ins ssa.Instruction) {
+				if call, ok := ins.(*ssa.Call); ok {
+					switch call.Call.StaticCallee() {
+					case mod:
+						mcalls = append(mcalls, call)
+					case exp:
+						ecalls = append(ecalls, call)
 					}
 				}
-				if e := guard.ErrOperand(ret); e != nil {
-					if ec, _ := guard.CallOf(e); ec != nil && ec.Call.StaticCallee() == exp {
-						okE = true
+			})
+			good = len(mcalls) > 0 && len(ecalls) > 0
+			ev2 := consteval.New()
+			for _, mOK := range []bool{true, false} {
+				for _, eOK := range []bool{true, false} {
+					env := consteval.Env{}
+					kind := func(ok bool) consteval.Val {
+						if ok {
+							return consteval.Val{K: consteval.Nil}
+						}
+						return consteval.Val{K: consteval.Err}
 					}
-				}
-				if !okM || !okE {
-					good = false
+					for _, mc := range mcalls {
+						env[mc] = kind(mOK)
+					}
+					for _, ec := range ecalls {
+						env[ec] = kind(eOK)
+					}
+					for _, prm := range f.Params {
+						env[prm] = consteval.Val{K: consteval.Ref}
+					}
+					outs, okE := ev2.Eval(f, nil, env)
+					if !okE || len(outs) == 0 {
+						good = false
+						continue
+					}
+					for _, o := range outs {
+						succeeds := o.IsOK()
+						fails := o.IsErr() || guard.DefinitelyFails(o.Ret)
+						if (mOK && eOK) != succeeds || (mOK && eOK) == fails {
+							good = false
+						}
+					}
 				}
 			}
 		}
